@@ -151,3 +151,81 @@ def verify_engine():
 
 
 VERIFY_WIDTH = [WidthDispatch()]
+
+
+# ------------------------------------------------------------------------------------------------ ref_width, proved
+REFERENT = z3.Function("referent", z3.IntSort(), z3.IntSort())   # ghost: the definition-level port / member a reference denotes
+
+
+class ResolveRefType(Contract):
+    """resolve_portref_type / resolve_bundleref_type as seen by ref_width: the definition-level Signal or bundle
+    instance the reference denotes (ghost function `referent`); an unresolvable reference goes to the failer.
+    ASSUMED here (the look-up itself is exercised by the bounded reference family)."""
+    returns = "ref"
+    result_classes = (Signal, BundleInstance)
+    raises = (RuntimeError,)
+
+    def __init__(self, fn, argname):
+        self.key = f"hdl21.elab.helpers.resolve_ref_types:{fn}"
+        self.argname = argname
+
+    def scenarios(self, eng):
+        return []
+    posts = property(lambda self: [("referent", lambda eng, st0, st, a, res:
+                                    res.z == REFERENT(getattr(a, self.argname).z))])
+
+
+class RefWidthProved(Contract):
+    """ref_width(ref): the width of the port / bundle member the reference denotes AS IT IS NOW - for every kind of
+    instance the reference goes through; a reference to a bundle-valued port or member has no width and is refused."""
+    key = "hdl21.elab.helpers.width:ref_width"
+    props = ("C03",)
+    pure = False
+    raises = (RuntimeError, ValueError)
+    returns = "int"
+
+    def scenarios(self, eng):
+        from hdl21.primitives import PrimitiveCall
+        from hdl21.external_module import ExternalModuleCall
+        from hdl21.module import Module
+        from hdl21.instance import Instance
+
+        def mk(kinds):
+            def setup(eng, st):
+                eng.field_classes["inst"] = (Instance,)
+                eng.field_classes["of"] = (Module, PrimitiveCall, ExternalModuleCall)
+                ref = sym_ref(st, "ref", kinds)
+                t = REFERENT(ref.z)
+                st.assume(z3.And(t != NULL, st.heap.get("$alive", t), t != ref.z))
+                st.assume(z3.Or([st.heap.get("$cls", t) == st.classid(k) for k in (Signal, BundleInstance)]))
+                st.assume(st.heap.get("width", t) >= 1)
+                if PortRef in kinds:
+                    inst = st.heap.get("inst", ref.z)
+                    st.assume(z3.And(inst != NULL, st.heap.get("$alive", inst)))
+                return {"ref": ref, "failer": WIDTH_FAIL}
+            return setup
+        yield Scenario("port-reference", mk((PortRef,)))
+        yield Scenario("bundle-reference", mk((BundleRef,)))
+
+    def frame(self, eng, st, a):
+        st.heap.havoc_field("_width")
+        st.heap.havoc_field("_width$none")
+
+    def _is_sig(self, st0, a):
+        return st0.heap.get("$cls", REFERENT(a.ref.z)) == st0.classid(Signal)
+
+    def p_value(self, eng, st0, st, a, res):
+        return z3.And(self._is_sig(st0, a), res.z == st0.heap.get("width", REFERENT(a.ref.z)))
+    posts = property(lambda self: [("present-width-of-the-referent", self.p_value)])
+    must_raise = property(lambda self: [("bundle-valued", lambda eng, st0, a: z3.Not(self._is_sig(st0, a)))])
+
+
+def ref_width_engine():
+    class SignalWidth(WidthContract):
+        """width() as called by ref_width on the referent"""
+    contracts = [RefWidthProved(), SignalWidth(), Fail(), ResolveRefType("resolve_portref_type", "pref"),
+                 ResolveRefType("resolve_bundleref_type", "bref")]
+    return mk_engine(contracts=contracts)
+
+
+VERIFY_REF_WIDTH = [RefWidthProved()]
